@@ -7,8 +7,8 @@
 (*   gaussian kinds: the sample lies in the bracket given by the monotone table Z, is       *)
 (*                   symmetric about the mean (j2 = UD - j1 pairs) and monotone in u        *)
 (* e.op = "tail": the same pair of calls at two points of the tail ladder (u = 2^-k1 / 1 - 2^-k1, ...):  *)
-(*   [.., s1, k1, s2, k2, ..]; gaussian kinds within gtol of the ladder table, strictly monotone,       *)
-(*   mirror pairs sum to 2 mean; uniform kinds exact for k <= 10, else inside [lo, lo + w/2^10] etc.    *)
+(*   [.., s1, b1, k1, s2, b2, k2, ..] (b = base 2 or 10); gaussian kinds within gtol of the ladder table, strictly monotone,       *)
+(*   binary mirror pairs sum to 2 mean; uniform kinds exact for 2^-k >= 2^-10, else in [lo, lo + w/2^10] *)
 (* e.op = "deliver": one real Optimizer.update_model([prior.sample(j1/UD)]) on a parameter in e.mode   *)
 (*   with that prior attached; lin = round(received*S), log = round(log10(received)*S) (has* = the      *)
 (*   reading exists); the reading named by Deliver(prior, mode, .) must be the specification's sample.  *)
@@ -17,7 +17,6 @@ EXTENDS Priors, IOUtils, TLCExt
 VARIABLE l
 TraceLog == ndJsonDeserialize(IOEnv.TRACE_FILE)
 MCZ == ndJsonDeserialize(IOEnv.PRIORS_Z_FILE)[1].z
-MCZT == ndJsonDeserialize(IOEnv.PRIORS_Z_FILE)[1].zt
 
 Rq(x) == R(x[1], x[2])
 \* grid cell of u = j/UD on the Z grid: floor and ceiling of u * UN
@@ -50,14 +49,15 @@ WhyPair(e) ==
 \* ---- tail ladder
 UniTailOk(m, S, p, pt, tol) ==
     LET w == RSub(p.b, p.a)
-        eps == RDiv(w, Q(Pow(2, IF pt.k <= 10 THEN pt.k ELSE 10)))
-    IN  IF pt.k <= 10 THEN Close(m, S, IF pt.side = "lo" THEN RAdd(p.a, eps) ELSE RSub(p.b, eps), tol)
+        small == IF pt.base = 2 THEN pt.k <= 10 ELSE pt.k <= 3
+        eps == RDiv(w, Q(Pow(pt.base, IF small THEN pt.k ELSE IF pt.base = 2 THEN 10 ELSE 3)))
+    IN  IF small THEN Close(m, S, IF pt.side = "lo" THEN RAdd(p.a, eps) ELSE RSub(p.b, eps), tol)
         ELSE IF pt.side = "lo" THEN GeS(m, S, p.a, tol) /\ LeS(m, S, RAdd(p.a, eps), tol)
         ELSE GeS(m, S, RSub(p.b, eps), tol) /\ LeS(m, S, p.b, tol)
 WhyTail(e) ==
     LET p   == [kind |-> e.kind, a |-> Rq(e.a), b |-> Rq(e.b)]
-        pt1 == [side |-> e.s1, k |-> e.k1]
-        pt2 == [side |-> e.s2, k |-> e.k2]
+        pt1 == [side |-> e.s1, base |-> e.b1, k |-> e.k1]
+        pt2 == [side |-> e.s2, base |-> e.b2, k |-> e.k2]
         uni == p.kind \in UniKinds
     IN  IF ~(IsTailPt(pt1) /\ IsTailPt(pt2)) THEN "tail_unknown_point"
         ELSE IF e.bad THEN "tail_finite"
@@ -68,7 +68,7 @@ WhyTail(e) ==
              ELSE "tail_inverse_cdf_uniform"
         ELSE IF ~(Close(e.m1, e.S, TailSample(p, pt1), e.gtol) /\ Close(e.m2, e.S, TailSample(p, pt2), e.gtol))
              THEN "tail_inverse_cdf_gaussian"
-        ELSE IF e.k1 = e.k2 /\ e.s1 # e.s2 /\ ~Close(e.m1 + e.m2, e.S, RMul(Q(2), p.a), 2 * e.tol) THEN "tail_symmetric"
+        ELSE IF e.k1 = e.k2 /\ e.b1 = 2 /\ e.b2 = 2 /\ e.s1 # e.s2 /\ ~Close(e.m1 + e.m2, e.S, RMul(Q(2), p.a), 2 * e.tol) THEN "tail_symmetric"
         ELSE "ok"
 \* ---- delivery through update_model
 WhyDeliver(e) ==
